@@ -1322,7 +1322,10 @@ def sink_common_append(fn: ast.AST) -> int:
                         and isinstance(nxt.value.func.value, ast.Name):
                     reads = {n.id for n in ast.walk(nxt) if isinstance(n, ast.Name) and isinstance(n.ctx, ast.Load)}
                     both = assigned(st.body) & assigned(st.orelse) & reads
-                    if len(both) >= 2:
+                    tested = st.test.id if isinstance(st.test, ast.Name) else (st.test.operand.id if isinstance(st.test, ast.UnaryOp) and isinstance(st.test.op, ast.Not) and isinstance(st.test.operand, ast.Name) else None)
+                    on_test = tested is not None and any(isinstance(x, ast.BoolOp) and isinstance(x.values[0], ast.Name) and x.values[0].id == tested for x in ast.walk(nxt)) \
+                        and tested not in assigned(st.body) | assigned(st.orelse)
+                    if len(both) >= 2 or (len(both) >= 1 and on_test):
                         st.body = st.body + [copy.deepcopy(nxt)]
                         st.orelse = st.orelse + [copy.deepcopy(nxt)]
                         del stmts[i + 1]
@@ -1681,7 +1684,7 @@ def normalize(project) -> List[str]:
     except OSError:
         return []
     renamed = recover_renamed_anchors(project)
-    from .normalize2 import simplify_defensive, recover_loops, hoist_lambda_calls, sink_loop_exit, unroll_search_loops, search_loops_to_any, fold_local_tables, dispatch_on_constant, accumulate_to_join, propagate_string_constants, unroll_index_loops, scalarise_local_lists, scalarise_records, fold_dict_building, unfold_reduce, first_match_lists, split_walrus_conjunctions
+    from .normalize2 import simplify_defensive, recover_loops, hoist_lambda_calls, sink_loop_exit, unroll_search_loops, search_loops_to_any, fold_local_tables, dispatch_on_constant, accumulate_to_join, propagate_string_constants, unroll_index_loops, scalarise_local_lists, scalarise_records, fold_dict_building, unfold_reduce, first_match_lists, split_walrus_conjunctions, split_on_name_truth, fold_tested_names
 
     module_of = {id(fi.node): fi.module for fi in project.funcs.values()}
     fi_of = {id(fi.node): fi for fi in project.funcs.values()}
@@ -1702,6 +1705,10 @@ def normalize(project) -> List[str]:
             n = split_walrus_conjunctions(fn)
             n += desugar(fn)
             n += first_match_lists(fn)
+            n += split_on_name_truth(fn)
+            k_ = sink_common_append(fn)
+            if k_:
+                n += k_ + fold_tested_names(fn)
             if id(fn) in fi_of and any(isinstance(x, ast.Call) and isinstance(x.func, (ast.Name, ast.Attribute)) and (x.func.id if isinstance(x.func, ast.Name) else x.func.attr) == "reduce" for x in ast.walk(fn)):
                 n += unfold_reduce(fn, _Scope(project, fi_of[id(fn)]).resolve)
             n += hoist_lambda_calls(fn)
